@@ -152,6 +152,9 @@ type harness struct {
 	sigs     map[uint64]bool
 	assigns  map[string]bool
 	procsSeq []int
+	// GOMAXPROCS outside the judged executions (the environment's value); the worker counts
+	// 1..16 are set only around each parallel execution, whose pool is sized by GOMAXPROCS.
+	baseProcs int
 }
 
 func prefetchHint(list *bal.BlockAccessList) map[common.Address][]common.Hash {
@@ -310,7 +313,7 @@ func (h *harness) runCase(ci int) {
 
 		// ---- oracle: sequential execution on a fresh state at the parent root
 		r.Case("case %d block %d: sequential oracle", ci, bi)
-		runtime.GOMAXPROCS(16)
+		runtime.GOMAXPROCS(h.baseProcs)
 		stSeq, cleanup, err := openState(bcSeq, parent, block, false)
 		if err != nil {
 			panic(err)
@@ -350,7 +353,7 @@ func (h *harness) runCase(ci int) {
 			}
 			resPar, err := bcPar.Processor().Process(ctx, block, stPar, nil, nil, vm.Config{EnablePreimageRecording: true}, nil)
 			core.VerifYieldHook = nil
-			runtime.GOMAXPROCS(16)
+			runtime.GOMAXPROCS(h.baseProcs)
 			hits := mon.ctrl.Hits()
 			assign, nWorkers := mon.assignment()
 			sig := fmt.Sprintf("par/pat=%s/ntx=%s/procs=%d/stacked=%v/workers=%d", patMask(s.patterns), bucket(nTx), procs, stacked, nWorkers)
@@ -430,7 +433,7 @@ func (h *harness) runCase(ci int) {
 					core.VerifYieldHook = mon.hook
 					_, ierr := bc.InsertChain(types.Blocks{mb})
 					core.VerifYieldHook = nil
-					runtime.GOMAXPROCS(16)
+					runtime.GOMAXPROCS(h.baseProcs)
 					w := witness(map[string]any{"mutation": kind, "where": where, "mode": mode, "forged_list": forged.PrettyPrint(), "parallel_chain": bc == bcPar})
 					head := bc.CurrentBlock()
 					if ierr == nil || head.Hash() != parent.Hash() {
@@ -454,7 +457,7 @@ func (h *harness) runCase(ci int) {
 		core.VerifYieldHook = mon.hook
 		_, ierr := bcPar.InsertChain(types.Blocks{block})
 		core.VerifYieldHook = nil
-		runtime.GOMAXPROCS(16)
+		runtime.GOMAXPROCS(h.baseProcs)
 		if ierr != nil {
 			r.Violation("import-rejects-true-block", fmt.Sprintf("InsertChain (parallel path, GOMAXPROCS=%d) rejects the true block: %v", procs, ierr), witness(map[string]any{"procs": procs}))
 			return
@@ -483,10 +486,10 @@ func (h *harness) runCase(ci int) {
 
 func run(r *vrt.Run) {
 	r.Rule("each case: an Amsterdam chain (1-2 blocks, 2-40 txs) from core.GenerateChain over 6+1 senders, 8 calldata-driven contracts, a 7702-delegated EOA and the system contracts; blocks are random interleavings of directed conflict sequences (read-after-write, write-after-write/net-zero, balance chains, create-then-call, create+selfdestruct, nonce chains, funded sender, 7702, requests, coinbase, reverts, nested frames) and random command lists. Judged: parallel Process vs sequential Process under (GOMAXPROCS, yield seed, reader stack) schedules; InsertChain of forged lists (23 mutation kinds x {body, body+header}) and of the true block. signature = (pattern set, #tx bucket, GOMAXPROCS, reader stack, workers used) resp. (mutation kind, mode, rejecting stage, chain)")
-	h := &harness{r: r, sigs: map[uint64]bool{}, assigns: map[string]bool{}, procsSeq: []int{1, 2, 3, 8, 16, 4, 5, 12}}
-	n := r.N(80, 3000)
+	h := &harness{r: r, sigs: map[uint64]bool{}, assigns: map[string]bool{}, procsSeq: []int{1, 2, 3, 8, 16, 4, 5, 12}, baseProcs: runtime.GOMAXPROCS(0)}
+	n := r.N(150, 3000)
 	if r.Race() {
-		n = r.N(14, 300)
+		n = r.N(40, 300)
 	}
 	defer runtime.GOMAXPROCS(runtime.GOMAXPROCS(0))
 	for ci := 0; ci < n; ci++ {
